@@ -229,26 +229,35 @@ Fixpoint tm_set (id : Z) (v : txst) (m : tmap) : tmap :=
   match m with [] => [(id, v)] | (k, w) :: r => if id =? k then (k, v) :: r else (k, w) :: tm_set id v r end.
 Definition tm_del (id : Z) (m : tmap) : tmap := filter (fun kv => negb (fst kv =? id)) m.
 
-Inductive top := TSend (id typ : Z) (pkgs : list (list bytes)) | TClose (id : Z).
+Inductive top :=
+| TSend (id typ : Z) (pkgs : list (list bytes))
+| TClose (id : Z)
+| TPackSize (id n : Z).     (* the server announces packet size n in an ENVCHANGE on channel id *)
 
-(* result: the writes of this operation; None = a panic in the model of the send path *)
-Definition tx_op (ps : Z) (m : tmap) (o : top) : option (list bytes * tmap) :=
+(* result: the writes of this operation, the channel states, the packet size in force afterwards (connection state,
+   shared by all channels); None = a panic in the model of the send path *)
+Definition tx_op (ps : Z) (m : tmap) (o : top) : option (list bytes * tmap * Z) :=
   match o with
   | TSend id typ pkgs =>
       match tm_find id m with
-      | None => Some ([], m)                                        (* ErrChannelClosed: nothing is written *)
+      | None => Some ([], m, ps)                                    (* ErrChannelClosed: nothing is written *)
       | Some st => match send_message ps id typ pkgs st with
                    | None => None
-                   | Some (outs, st') => Some (outs, tm_set id st' m)
+                   | Some (outs, st') => Some (outs, tm_set id st' m, ps)
                    end
       end
   | TClose id =>
       match tm_find id m with
-      | None => Some ([], m)
+      | None => Some ([], m, ps)
       | Some st => match send_packet ps id buf_close false (tnr st) (teardown_packet ps) with
                    | None => None
-                   | Some (w, _) => Some ([w], tm_del id m)
+                   | Some (w, _) => Some ([w], tm_del id m, ps)
                    end
+      end
+  | TPackSize id n =>
+      match tm_find id m with
+      | None => Some ([], m, ps)                                    (* a packet for no channel: reported, ignored *)
+      | Some _ => Some ([], m, if (hdr_size <? n) && (n <=? 65535) then n else ps)
       end
   end.
 
@@ -257,7 +266,7 @@ Fixpoint tx_ops (ps : Z) (m : tmap) (os : list top) : option (list bytes) :=
   | [] => Some []
   | o :: r => match tx_op ps m o with
               | None => None
-              | Some (ws, m1) => match tx_ops ps m1 r with None => None | Some ws2 => Some (ws ++ ws2) end
+              | Some (ws, m1, ps1) => match tx_ops ps1 m1 r with None => None | Some ws2 => Some (ws ++ ws2) end
               end
   end.
 
